@@ -18,11 +18,12 @@ SEEDED = VERIF / "seeded"
 
 def import_from(root: Path):
     for wt in sorted(root.glob("C??")):
-        cf = wt / "confirm.json"
-        if not cf.exists():
+        conf = {}
+        for cf in list(wt.glob("confirm*.json")):
+            conf.update({d["mutant"]: d for d in json.loads(cf.read_text()) if d})
+        if not conf:
             continue
-        conf = {d["mutant"]: d for d in json.loads(cf.read_text()) if d}
-        for k in (1, 2, 3):
+        for k in (1, 2, 3, 4, 5, 6):
             mid = f"{wt.name}-m{k}"
             d = conf.get(mid)
             diff = wt / "mutants" / f"m{k}.diff"
@@ -32,6 +33,8 @@ def import_from(root: Path):
             if not ok:
                 continue
             out = SEEDED / mid
+            if (out / "meta.json").exists():
+                continue
             out.mkdir(parents=True, exist_ok=True)
             shutil.copy(diff, out / "patch.diff")
             shutil.copy(wt / "mutants" / f"m{k}_demo.py", out / "demo.py")
@@ -40,7 +43,7 @@ def import_from(root: Path):
             meta = {
                 "id": mid,
                 "property": wt.name,
-                "source": "independent sub-agent given only the property text and a scratch worktree",
+                "source": "independent sub-agent given only the property text and a scratch worktree" + (" (round 2: asked for changes different in kind and place from m1-m3)" if k > 3 else ""),
                 "description_and_what_it_needs_to_manifest": desc.strip(),
                 "confirmed": {
                     "how": "in the scratch worktree: demo on clean sources, git apply patch.diff, the 39 baseline tests, demo on the changed sources, restore",
@@ -53,8 +56,10 @@ def import_from(root: Path):
             print("recorded", mid)
 
 
-def detect():
+def detect(only_new=False):
     dirs = sorted(p for p in SEEDED.glob("*") if (p / "patch.diff").exists())
+    if only_new:
+        dirs = [d for d in dirs if "checks" not in json.loads((d / "meta.json").read_text())]
 
     def one(d):
         res = run(d / "patch.diff", ALL)
@@ -81,4 +86,4 @@ if __name__ == "__main__":
     if sys.argv[1] == "import":
         import_from(Path(sys.argv[2]))
     elif sys.argv[1] == "detect":
-        detect()
+        detect(only_new=len(sys.argv) > 2 and sys.argv[2] == "new")
